@@ -287,7 +287,7 @@ def gen_point(rng, identity):
 def gen_cases(tier, seed):
     for cls, letters in (('Vec2', 'xy'), ('Vec3', 'xyz'), ('Vec4', 'xyzw')):
         yield {'identity': 'swizzle', 'cls': cls, 'letters': letters}
-    t = 200 if tier == 'quick' else 16 * 5000
+    t = 400 if tier == 'quick' else 16 * 5000
     for name in EXACT + FLOAT:
         for i in range(t):
             rng = random.Random(f'C18/{seed}/{tier}/{name}/{i}')
